@@ -9,6 +9,19 @@ and the child checks), `Ca/Resources.lean` (what "held" is for krill).
 particular for `ResSet.holdsCode`, the test krill performs, which is the property's notion
 of holding (`held_is_own_family`; the pinned tree's family-blind test is kept as a labelled
 counter-model, `pinned_held_family_confusion`).
+
+Clause → theorem (property text of C05 in properties.jsonl)
+| clause | theorem(s) |
+|---|---|
+| a ROA delta is applied entirely or not at all | `roa_delta_all_or_nothing`, `roa_delta_result_keys`, `refused_leaves_untouched` |
+| refused exactly when it adds a prefix not held / invalid max length / already present (same comment) / removes one not present | `roa_delta_iff` (+ `roa_update_iff` on the normalised delta), `roa_delta_errors_exact`, `held_is_own_family` |
+| implicit and explicit max length, duplicates inside one delta | `normalised_explicit`, `Spec.present`/`commentOf` in `roa_delta_iff` |
+| ASPA changes refused exactly when: customer AS not held, empty or duplicated provider list, customer its own provider, removal of what does not exist | `aspa_update_iff`, `aspa_existing_iff`; applied entirely: `aspa_update_applied` |
+| router-key changes: AS not held, CSR not validly self-signed, removal of what does not exist | `bgpsec_update_iff`; applied entirely: `bgpsec_update_applied` |
+| child changes: entitled to nothing (add), resources the parent does not hold, unknown / duplicate child | `child_add_iff`, `child_update_iff`, `child_update_accepts_empty` (shrinking to nothing is legitimate, C02) |
+| a refused change leaves configuration (and repository) untouched | `refused_leaves_untouched` (per command); per API request: false for the multi-field child update, `child_request_not_atomic` (F-C05-1, open, system stream); repository: no event ⇒ nothing to publish (C07/C01) |
+| for every request content against every reachable CA state (histories) | `history_entries_held_when_accepted`, `api_view_is_fold_of_accepted`, `aspa_history_customers_held`, `bgpsec_history_keys_held` |
+| (pinned tree, fixed) | `pinned_held_family_confusion` (F-C05-2), `pinned_aspa_update_not_applied` (F-C05-3) |
 -/
 import KrillModel.Ca.Lemmas
 namespace KM.Props.C05
@@ -110,6 +123,102 @@ theorem normalised_explicit (u : RoaUpdates) :
   · intro p hp
     simp only [List.mem_map] at hp
     obtain ⟨p', _, rfl⟩ := hp; rfl
+
+/-! ## Histories of ROA requests -/
+
+/-- One request: what it can bring into the configuration.  An authorisation that is
+configured afterwards either was configured before, or the request was accepted and lists it
+among its (normalised) additions with a valid max length and a prefix held *at that
+moment*. -/
+theorem request_adds_only_held (r : Routes) (q : RouteReq) (p : Roa)
+    (h : (routeCommand r q.held q.upd).has p = true) :
+    r.has p = true ∨
+      (Spec.accepted r q = true ∧ (∃ c ∈ q.upd.setExplicitMaxLength.added, c.payload = p) ∧
+        q.held p = true ∧ maxLengthValid p = true) := by
+  obtain ⟨hacc, href⟩ := routeCommand_view r q
+  by_cases ha : Spec.accepted r q = true
+  · have hv := hacc ha p
+    rw [Routes.has_eq_isSome, hv] at h
+    unfold Spec.viewStep at h
+    cases hl : Spec.lastComment q.upd.setExplicitMaxLength.added p with
+    | none =>
+      rw [hl] at h
+      simp only at h
+      left
+      split at h
+      · cases h
+      · rw [Routes.has_eq_isSome]; exact h
+    | some c =>
+      right
+      unfold Spec.lastComment at hl
+      obtain ⟨cf, hcf, _⟩ := Option.map_eq_some_iff.mp hl
+      have hmem : cf ∈ q.upd.setExplicitMaxLength.added := List.mem_reverse.mp (List.mem_of_find?_eq_some hcf)
+      have hpay : cf.payload = p := by simpa using List.find?_some hcf
+      -- accepted: the entry is not bad
+      have hnb := (expected_empty_iff r q.held q.upd.setExplicitMaxLength).mp ha
+      obtain ⟨pre, post, hsplit⟩ := List.append_of_mem hmem
+      have hv1 : maxLengthValid cf.payload = true := by
+        apply Classical.byContradiction
+        intro hn
+        exact hnb (Or.inr ⟨pre, cf, post, hsplit, Or.inl (by simpa using hn)⟩)
+      have hh1 : q.held cf.payload = true := by
+        apply Classical.byContradiction
+        intro hn
+        exact hnb (Or.inr ⟨pre, cf, post, hsplit, Or.inr (Or.inl (by simpa using hn))⟩)
+      exact ⟨ha, ⟨cf, hmem, hpay⟩, hpay ▸ hh1, hpay ▸ hv1⟩
+  · have ha' : Spec.accepted r q = false := by simpa using ha
+    rw [href ha'] at h
+    exact Or.inl h
+
+/-- **Every reachable configuration only contains authorisations that were within the held
+resources at the time of acceptance**: whatever is configured after a history of requests
+was configured at the start or was added by an accepted request whose resources held its
+prefix (and whose max length was valid) – entitlements may change freely between requests. -/
+theorem history_entries_held_when_accepted (r0 : Routes) (h : List RouteReq) (p : Roa)
+    (hp : (runRoutes r0 h).has p = true) :
+    r0.has p = true ∨
+      ∃ pre q post, h = pre ++ q :: post ∧ Spec.accepted (runRoutes r0 pre) q = true ∧
+        (∃ c ∈ q.upd.setExplicitMaxLength.added, c.payload = p) ∧
+        q.held p = true ∧ maxLengthValid p = true := by
+  induction h generalizing r0 with
+  | nil => exact Or.inl hp
+  | cons q rest ih =>
+    have hrun : runRoutes r0 (q :: rest) = runRoutes (routeCommand r0 q.held q.upd) rest := rfl
+    rw [hrun] at hp
+    rcases ih (routeCommand r0 q.held q.upd) hp with h1 | ⟨pre, q', post, hs, hacc, hc, hh, hv⟩
+    · rcases request_adds_only_held r0 q p h1 with h2 | ⟨hacc, hc, hh, hv⟩
+      · exact Or.inl h2
+      · exact Or.inr ⟨[], q, rest, rfl, hacc, hc, hh, hv⟩
+    · refine Or.inr ⟨q :: pre, q', post, by rw [hs]; rfl, ?_, hc, hh, hv⟩
+      exact hacc
+
+/-- **What the API shows equals the fold of the accepted deltas**: after any history of
+requests the configured authorisations and their comments are what results from applying
+the accepted deltas in order (`Spec.viewStep`: last mention among the additions, else gone
+if removed, else unchanged); refused requests leave no trace. -/
+theorem api_view_is_fold_of_accepted (r0 : Routes) (h : List RouteReq) :
+    ∀ p, (runRoutes r0 h).get? p = Spec.viewRun r0 r0.get? h p := by
+  suffices H : ∀ (r : Routes) (g : Roa → Option Comment), (∀ p, r.get? p = g p) →
+      ∀ p, (runRoutes r h).get? p = Spec.viewRun r g h p from H r0 r0.get? (fun _ => rfl)
+  induction h with
+  | nil => intro r g hg p; exact hg p
+  | cons q rest ih =>
+    intro r g hg p
+    have hrun : runRoutes r (q :: rest) = runRoutes (routeCommand r q.held q.upd) rest := rfl
+    rw [hrun]
+    obtain ⟨hacc, href⟩ := routeCommand_view r q
+    unfold Spec.viewRun
+    by_cases ha : Spec.accepted r q = true
+    · simp only [ha, if_true]
+      apply ih
+      intro p'
+      rw [hacc ha p']
+      unfold Spec.viewStep
+      rw [hg p']
+    · have ha' : Spec.accepted r q = false := by simpa using ha
+      simp only [ha', Bool.false_eq_true, if_false]
+      rw [href ha']
+      exact ih r g hg p
 
 /-! ## What krill takes for "held" -/
 
@@ -253,6 +362,61 @@ theorem pinned_aspa_update_not_applied :
   refine ⟨⟨[⟨64496, [1, 2]⟩], fun _ => true, ⟨[⟨64496, [1, 2]⟩], [64496]⟩, _, _, rfl, ?_, ?_⟩,
     ⟨[⟨64496, [1]⟩], fun _ => true, ⟨[⟨64496, [1, 2]⟩, ⟨64496, [1]⟩], []⟩, _, _, rfl, rfl, ?_, ?_⟩⟩ <;> decide
 
+/-- **ASPA histories**: a customer that has a definition after a history of update requests
+had one at the start or was listed by an accepted request while its AS was held, with a
+non-empty, duplicate-free provider list that does not name the customer. -/
+theorem aspa_history_customers_held (s0 : AspaDefs) (h : List AspaReq) (c : Nat)
+    (hc : (runAspa s0 h).has c = true) :
+    s0.has c = true ∨
+      ∃ pre q post d, h = pre ++ q :: post ∧ d ∈ q.upd.addOrReplace ∧ d.customer = c ∧
+        (∃ r, aspaProcessUpdates (runAspa s0 pre) q.holdsAsn q.upd = .ok r) ∧
+        q.holdsAsn c = true ∧ d.providers ≠ [] ∧ d.customer ∉ d.providers ∧ hasDup d.providers = false := by
+  induction h generalizing s0 with
+  | nil => exact Or.inl hc
+  | cons q rest ih =>
+    have hrun : runAspa s0 (q :: rest) = runAspa (aspaCommand s0 q.holdsAsn q.upd) rest := rfl
+    rw [hrun] at hc
+    rcases ih (aspaCommand s0 q.holdsAsn q.upd) hc with h1 | ⟨pre, q', post, d, hs, hd, hdc, hok, hh, h3⟩
+    · -- one request
+      unfold aspaCommand at h1
+      cases hp : aspaProcessUpdates s0 q.holdsAsn q.upd with
+      | error e => rw [hp] at h1; exact Or.inl h1
+      | ok r =>
+        obtain ⟨all, evs⟩ := r
+        rw [hp] at h1
+        simp only at h1
+        -- the applied definitions have the customers of the running copy
+        have hsame := aspa_update_applied s0 q.holdsAsn q.upd all evs hp c
+        have hall : all.has c = true := by
+          rw [AspaDefs.has_eq_isSome, ← sameProviders_isSome hsame, ← AspaDefs.has_eq_isSome]; exact h1
+        -- which were there before or are listed
+        have hp' := hp
+        unfold aspaProcessUpdates at hp'
+        cases hf : foldlE aspaRemoveStep (s0, []) q.upd.remove with
+        | error e => rw [hf] at hp'; cases hp'
+        | ok acc =>
+          rw [hf] at hp'
+          simp only at hp'
+          have hbase := (aspaRemoveFold s0 q.upd.remove [] (s0, []) (aspaBase_nil s0).symm).2 acc hf
+          simp only [List.nil_append] at hbase
+          rcases aspaAddFold_has q.holdsAsn q.upd.addOrReplace acc (all, evs) hp' c hall with h2 | ⟨d, hd, hdc⟩
+          · left
+            rw [hbase, aspaBase_has] at h2
+            simp only [Bool.and_eq_true] at h2
+            exact h2.1
+          · right
+            -- accepted: no listed definition is bad
+            have hnobad : ¬ ∃ e, aspaProcessUpdates s0 q.holdsAsn q.upd = .error e := by
+              rintro ⟨e, he⟩; rw [hp] at he; cases he
+            rw [aspa_update_iff] at hnobad
+            have hgood : ¬ (d.providers = [] ∨ d.customer ∈ d.providers ∨
+                hasDup d.providers = true ∨ q.holdsAsn d.customer = false) :=
+              fun hb => hnobad (Or.inr ⟨d, hd, hb⟩)
+            simp only [not_or] at hgood
+            refine ⟨[], q, rest, d, rfl, hd, hdc, ⟨_, hp⟩, ?_, hgood.1, hgood.2.1, by simpa using hgood.2.2.1⟩
+            rw [← hdc]; simpa using hgood.2.2.2
+    · exact Or.inr ⟨q :: pre, q', post, d, by rw [hs]; rfl, hd, hdc, hok, hh, h3⟩
+
 /-! ## BGPsec router keys -/
 
 /-- **A router-key update is refused exactly when** it removes a definition that does not
@@ -295,6 +459,68 @@ theorem bgpsec_update_iff (s : BgpsecDefs) (holdsAsn : Nat → Bool) (now : Nat)
         rw [hf] at he; cases he
       · obtain ⟨e, he⟩ := hadd.mpr h
         exact ⟨e, by rw [he]⟩
+
+/-- The events of an accepted router-key update produce exactly the definitions the
+certificates are issued from. -/
+theorem bgpsec_update_applied (s : BgpsecDefs) (holdsAsn : Nat → Bool) (now : Nat) (u : BgpsecUpdates)
+    (all : BgpsecDefs) (evs : List BgpsecEv)
+    (h : bgpsecProcessUpdates s holdsAsn now u = .ok (all, evs)) :
+    applyBgpsecEvs s evs = all ∧
+      ∀ k, all.has k = true → s.has k = true ∨ ∃ d ∈ u.add, (⟨d.asn, d.key⟩ : BgpsecKey) = k := by
+  unfold bgpsecProcessUpdates at h
+  cases hf : foldlE' bgpsecRemoveStep (s, []) u.remove with
+  | error e => rw [hf] at h; cases h
+  | ok acc =>
+    rw [hf] at h
+    simp only at h
+    obtain ⟨r1, r2⟩ := bgpsecRemoveFold_applied s u.remove (s, []) acc (by simp [applyBgpsecEvs]) hf
+    cases hg : foldlE' (bgpsecAddStep holdsAsn) (acc.1, acc.2, now) u.add with
+    | error e => rw [hg] at h; cases h
+    | ok r =>
+      rw [hg] at h
+      simp only [Except.ok.injEq, Prod.mk.injEq] at h
+      obtain ⟨rfl, rfl⟩ := h
+      obtain ⟨a1, a2⟩ := bgpsecAddFold_applied s holdsAsn u.add (acc.1, acc.2, now) r r1 hg
+      refine ⟨a1, ?_⟩
+      intro k hk
+      rcases a2 k hk with h1 | h1
+      · exact Or.inl (r2 k h1)
+      · exact Or.inr h1
+
+/-- **Router-key histories**: a definition that exists after a history of update requests
+existed at the start or was added by an accepted request with a validly signed CSR while
+its AS was held. -/
+theorem bgpsec_history_keys_held (s0 : BgpsecDefs) (h : List BgpsecReq) (k : BgpsecKey)
+    (hk : (runBgpsec s0 h).has k = true) :
+    s0.has k = true ∨
+      ∃ pre q post d, h = pre ++ q :: post ∧ d ∈ q.upd.add ∧ (⟨d.asn, d.key⟩ : BgpsecKey) = k ∧
+        d.valid = true ∧ q.holdsAsn d.asn = true := by
+  induction h generalizing s0 with
+  | nil => exact Or.inl hk
+  | cons q rest ih =>
+    have hrun : runBgpsec s0 (q :: rest) = runBgpsec (bgpsecCommand s0 q.holdsAsn q.now q.upd) rest := rfl
+    rw [hrun] at hk
+    rcases ih _ hk with h1 | ⟨pre, q', post, d, hs, hd, hdk, hv, hh⟩
+    · unfold bgpsecCommand at h1
+      cases hp : bgpsecProcessUpdates s0 q.holdsAsn q.now q.upd with
+      | error e => rw [hp] at h1; exact Or.inl h1
+      | ok r =>
+        obtain ⟨all, evs⟩ := r
+        rw [hp] at h1
+        simp only at h1
+        obtain ⟨happ, hkeys⟩ := bgpsec_update_applied s0 q.holdsAsn q.now q.upd all evs hp
+        rw [happ] at h1
+        rcases hkeys k h1 with h2 | ⟨d, hd, hdk⟩
+        · exact Or.inl h2
+        · right
+          have hnobad : ¬ ∃ e, bgpsecProcessUpdates s0 q.holdsAsn q.now q.upd = .error e := by
+            rintro ⟨e, he⟩; rw [hp] at he; cases he
+          rw [bgpsec_update_iff] at hnobad
+          have hgood : ¬ (d.valid = false ∨ q.holdsAsn d.asn = false) :=
+            fun hb => hnobad (Or.inr ⟨d, hd, hb⟩)
+          simp only [not_or] at hgood
+          exact ⟨[], q, rest, d, rfl, hd, hdk, by simpa using hgood.1, by simpa using hgood.2⟩
+    · exact Or.inr ⟨q :: pre, q', post, d, by rw [hs]; rfl, hd, hdk, hv, hh⟩
 
 /-! ## Children -/
 
@@ -403,5 +629,16 @@ example :
     let u : AspaUpdates := ⟨[⟨64496, [2]⟩, ⟨64497, [4, 3]⟩, ⟨64497, [4]⟩, ⟨64498, [5]⟩], [64496]⟩
     ∃ all evs, aspaProcessUpdates s (fun _ => true) u = .ok (all, evs) ∧ evs.length = 5 := by
   refine ⟨_, _, rfl, by decide⟩
+
+/-- A history in which the entitlement shrinks between two requests: the authorisation
+accepted while `10.0.0.0/8` was held stays configured, a later request for the same prefix
+is refused, and the view is the fold of the accepted delta alone. -/
+example :
+    let p : Roa := ⟨64496, ⟨.v4, 167772160, 8⟩, some 8⟩
+    let p2 : Roa := ⟨64497, ⟨.v4, 167772160, 8⟩, some 8⟩
+    let h : List RouteReq := [⟨fun _ => true, ⟨[⟨p, none⟩], []⟩⟩, ⟨fun _ => false, ⟨[⟨p2, none⟩], []⟩⟩]
+    (runRoutes [] h).has p = true ∧ (runRoutes [] h).has p2 = false ∧
+      Spec.accepted [] h[0] = true ∧ Spec.accepted (runRoutes [] [h[0]]) h[1] = false := by
+  decide
 
 end KM.Props.C05
